@@ -30,7 +30,7 @@ for pid in sorted(k for k in PROPS if k != 'DBG'):
                     "values inside the stated bounds, counterexamples are replayed natively (dev+release). "
                     + p.get("claim", "") + " Bounds: quick = " + p["bounds"]["quick"] + "; thorough = " + p["bounds"]["thorough"]
                     + ". Outside the claim: " + p.get("outside", ""),
-            "design_ref": "DESIGN.md section 4, " + pid,
+            "design_ref": "DESIGN.md section 5, " + pid,
         },
         "level_note": "Trusted base: rustc's MIR as semantics of the source; value-level summaries of std String/str/Vec/"
                       "HashMap/iterator-over-raw-memory functions (listed per run in evidence coverage.trusted_base and "
